@@ -525,6 +525,16 @@ func e2eSlowComponent(r *hx.Run) {
 			c.oneCPU = e.oneCPU(c.sub)
 			e.run(c)
 		}
+		if it == 0 {
+			// … and a budget of more than five seconds per packet (`--rate 11/m`): the second probe still goes out, and the
+			// run is not over before it has
+			p := 1 + rng.Intn(65000)
+			base := (labNet | uint32(16+rng.Intn(200))) &^ 1
+			s := all[rng.Intn(2)]
+			c := e2eCase{kind: s.kind, sub: s.sub, excl: "none", extra: []string{"--rate", []string{"11/m", "1/5400ms", "2/11s"}[rng.Intn(3)]},
+				src: fmt.Sprintf("net:%d/32", base), ports: fmt.Sprintf("%d-%d", p, p+1)}
+			e.run(c)
+		}
 	}
 }
 
